@@ -359,8 +359,11 @@ fn walkoff_case(ctx: &mut Ctx, c: &CrystalType, theta: f64, phi: f64, bphi: f64,
   // angle varies (beam azimuth 0 or π, or the beam along z), so the angle ψ between beam and optic
   // axis moves one-to-one with the crystal angle; clause restricted to 12° ≤ ψ ≤ 90°
   if is_uniaxial(c) {
-    let in_plane = btheta == 0.0 || bphi == 0.0;
-    let psi = theta + btheta; // bphi = 0: direction (sin θb, 0, cos θb); crystal-frame z = cos(θ+θb)
+    // the closed form depends only on the angle between optic axis and beam DIRECTION: a beam along z
+    // (θb = 0) has the same direction whatever azimuth it stores; bphi = 0: direction (sin θb, 0, cos θb),
+    // crystal-frame z = cos(θ+θb); bphi = π: direction (−sin θb, 0, cos θb), crystal-frame z = cos(θ−θb)
+    let in_plane = btheta == 0.0 || bphi == 0.0 || bphi == PI;
+    let psi = if btheta == 0.0 { theta } else if bphi == PI { theta - btheta } else { theta + btheta };
     if in_plane && psi >= 12.0 * PI / 180.0 && psi <= FRAC_PI_2 {
       if let Some(rho) = rho {
         let (n_o, n_e) = (n.x, n.z);
@@ -562,6 +565,15 @@ pub fn run(ctx: &mut Ctx) {
         let lambda = gen_lambda(&mut ctx.rng, c);
         let t_c = gen_temp(&mut ctx.rng);
         walkoff_case(ctx, c, theta, phi, 0.0, 0.0, *p, lambda, t_c, "pump-12-90");
+        // same direction (along z), other stored azimuths: e.g. the collinear optimum idler has φ = φ_s + 180°
+        let bphi = match j % 6 {
+          0 => PI,
+          1 => FRAC_PI_2,
+          2 => 3.0 * FRAC_PI_2,
+          3 => 37.0 * PI / 180.0,
+          _ => ctx.rng.range(0.0, 2.0 * PI),
+        };
+        walkoff_case(ctx, c, theta, phi, bphi, 0.0, *p, lambda, t_c, "along-z-azimuth");
       }
       // beams in the plane of rotation
       for _ in 0..n_w / 2 {
@@ -570,6 +582,9 @@ pub fn run(ctx: &mut Ctx) {
         let lambda = gen_lambda(&mut ctx.rng, c);
         let phi = gen_crystal_angle(&mut ctx.rng);
         walkoff_case(ctx, c, theta, phi, 0.0, btheta, *p, lambda, 20.0, "in-plane");
+        // tilted to the other side of z in the same plane (azimuth 180°): ψ = θc − θb
+        let theta2 = ctx.rng.range(12.0 * PI / 180.0 + 0.2, FRAC_PI_2);
+        walkoff_case(ctx, c, theta2, phi, PI, btheta, *p, lambda, 20.0, "in-plane-180");
       }
       // every orientation: finite (crystal angle 0, tiny, negative, beyond 90°; generic beams)
       for j in 0..n_w {
